@@ -602,6 +602,12 @@ fn step(cx: &mut Ctx, idx: usize, op: &Op, ob: &Obs) {
                 return;
             }
             match op {
+                BOp::ExtendClaims(map) => {
+                    cx.j.trace.push("bop:extend".into());
+                    for (k, v) in map {
+                        m.claims.insert(k.clone(), MVal::Json(v.clone()));
+                    }
+                }
                 BOp::SetClaim(c) => {
                     let k = c.key().to_string();
                     cx.j.trace.push(format!("bop:set:{}", if ["exp", "nbf", "iat", "iss", "sub", "aud", "jti"].contains(&k.as_str()) { k.as_str() } else { "custom" }));
